@@ -1055,4 +1055,7 @@ def run(P, R, tier):
     _c12.parser_rules(P, _Remap(R, {'C12.COPY.1': 'C06.COPY.1', 'C12.MPT.2': 'C06.COPY.1', 'C12.MPT.3': 'C06.COPY.1', 'C12.MPT.4': 'C06.COPY.1'}))
     _c15.merge_details(P, R, 'C06.MPT.5')
     _c02.required_mask(P, _Remap(R, {'C02.MPT.1': 'C06.MPT.6'}))
+    # the bounded copies above go through strlcpy: where the program supplies its own, it keeps its promise
+    from .. import bnd as _bndS
+    _bndS.fallback_strlcpy(P, R, 'C06.BND.6')
     return EXPLANATION, ASSUMPTIONS
